@@ -159,6 +159,34 @@ class Schemes:
             acc += x
         return res
 
+    def argument_collisions(self, keys, per_group=2):
+        """Pairs of primitive call sites (in different or the same scheme) that agree on one argument and differ in another:
+        the inputs on which a value cached under an incomplete key (or left in a static) would be reused wrongly.
+        -> [((key, edge, item), (key, edge, item), primitive, argument position)]"""
+        groups = collections.defaultdict(list)
+        for k in keys:
+            for i, e in enumerate(self.data[k]["edges"]):
+                for j, it in enumerate(e["items"]):
+                    if it[0] == "call" and "?" not in it[2]:
+                        for pos, v in enumerate(it[2]):
+                            groups[(it[1], pos, v)].append((k, i, j, tuple(it[2])))
+        pairs = []
+        for (prim, pos, v), sites in sorted(groups.items()):
+            seen = {}
+            for s in sites:
+                seen.setdefault(s[3], s)
+            distinct = list(seen.values())
+            if len(distinct) < 2:
+                continue
+            n = 0
+            for a in range(len(distinct)):
+                for b in range(a + 1, len(distinct)):
+                    if n >= per_group:
+                        break
+                    pairs.append((distinct[a][:3], distinct[b][:3], prim, pos))
+                    n += 1
+        return pairs
+
     def first_is_alpha(self, key, path):
         s = self.data[key]
         for i in path:
